@@ -52,7 +52,8 @@ def run(c):
                       'additionally the sequence of ascon_permute() calls of each call is observed through a link-time wrapper and must equal the sequence ApiLeak.tla predicts from public lengths (AEAD, SIV, PRF/MAC)',
                       'timing proper (caches, micro-architecture) is not observable; shapes are sampled (lengths 0 .. several blocks)']
     p = gen(c)
-    fls = ['rel', 'c64', 'c32'] + (['dxor', 'generic', 'ks3+ds3+ms3', 'c64+ks2+ds2+ms2', 'c32+ks4+ds4'] if th else ['ks3+ds3+ms3'])
+    # realmask: the masking randomness comes from the library's own TRNG mixer, seeded with tainted entropy
+    fls = ['rel', 'c64', 'c32', 'realmask'] + (['dxor', 'generic', 'ks3+ds3+ms3', 'c64+ks2+ds2+ms2', 'c32+ks4+ds4', 'c32+realmask', 'ks3+ds3+ms3+realmask'] if th else ['ks3+ds3+ms3'])
     build_many(fls)
     for fl in fls:
         c.tv(p, fl, 'ct', max_cost=40.0, env={'DRV_PREFIX': 'valgrind -q --error-exitcode=96 --num-callers=12'})
